@@ -36,7 +36,7 @@ ENGINES["h3"] = {
     "instrument": ["server", "server/commitlog", "server/telemetry"],
     "derive_startsim": True,
     "extra_harness": [("server/commitlog", "commitlog")],
-    "fs": [],
+    "fs": ["server/commitlog"],
     "replace": {"github.com/nats-io/nats.go": "natsgo", "github.com/hashicorp/raft": "raft", "github.com/liftbridge-io/nats-on-a-log": "natslog", "github.com/nats-io/nuid": "nuid"},
     "real_vs_stub": H3_STUB,
     "kind": "deterministic simulation of 1-4 real liftbridge servers over a simulated NATS bus and a Raft stub in one synctest bubble",
